@@ -1245,7 +1245,12 @@ fn known_inputs() -> Vec<(String, String)> {
         ("r5:nested-rows-26", format!("{}+1 [1]", "≡".repeat(26))),
         ("r5:nested-fill-40", format!("{}+1 [1]", "⬚0".repeat(40))),
         // still open after the last round
-        ("open:stencil-fill-empty-rows", "⬚0⧈□ 65536 ↯3_0 0".to_string()),
+        // repaired in round 7: must stay quiet
+        ("r7:stencil-fill-empty-rows", "⬚0⧈□ 65536 ↯3_0 0\n⬚0⧈∘ 65536 ↯3_0 0".to_string()),
+        ("r7:try-three-functions", "F ← ⍣(⨬(0 3 ⍤\"x\"|1)|⍤\"mid\"0 ¯ ⍤\"x\" +|3 ×)\nF 0 5 6 7".to_string()),
+        ("open:validate-box-string", "# Experimental!\n⊨ {\"ab\"} 5".to_string()),
+        ("open:noise-octaves", "# Experimental!\nnoise 1 1e10 [[0]]".to_string()),
+        ("open:tuples-inf-size", "⧅≠ ∞ 1e10".to_string()),
         ("open:nested-under", format!("{}⊢ [1]", "⍜".repeat(26))),
     ];
     v.into_iter().map(|(n, s)| (n.to_string(), s)).collect()
@@ -1652,7 +1657,16 @@ fn search(n: usize, thorough: bool) {
                                     moved = Some(("run".to_string(), format!("execution returned after {} ms under a {} s execution limit ({})", again.exec_ms, EXEC_LIMIT_S, one_line(&m, 60))));
                                 }
                             }
-                            (inp.src.clone(), ev, confirmed)
+                            // small unlabelled inputs are shrunk too ("still hangs" = no result within 5 s), so that the key
+                            // names the construct that wedges instead of the first characters of a random program
+                            if confirmed && inp.label.is_empty() && inp.src.len() <= 400 {
+                                let st = moved.as_ref().map(|m| m.0.clone()).unwrap_or_else(|| f.stage.clone());
+                                let mut w5 = Worker::with_hang("64", 5);
+                                let (s5, e5) = shrink(&mut w5, inp, "hang", &st, 40);
+                                (s5, ev + e5, confirmed)
+                            } else {
+                                (inp.src.clone(), ev, confirmed)
+                            }
                         } else {
                             let (s, ev) = shrink(&mut w, inp, &f.base, &f.stage, budget);
                             (s, ev, true)
@@ -1687,6 +1701,10 @@ fn search(n: usize, thorough: bool) {
             f.msg = msg.clone();
         }
         let f = &f;
+        if f.kind == "hang" && inp.label.is_empty() {
+            let t = s.trim_start_matches("# Experimental!\n").trim_start_matches("#Experimental!\n");
+            fullkey = format!("hang/{}#{}", stage_class(&f.stage), rep_sig(t));
+        }
         if f.kind == "abort" && inp.label.is_empty() {
             fullkey = format!("{}#{}", key, rle_sig(&s));
         }
@@ -1906,6 +1924,17 @@ fn main() {
             search(n, thorough);
         }
         "tie" => tie(),
+        "args" => {
+            // show the values that `probe ARGSEED NARGS` pushes (last one = top of the stack)
+            let argseed: u64 = std::env::args().nth(2).and_then(|s| s.parse().ok()).unwrap_or(0);
+            let nargs: usize = std::env::args().nth(3).and_then(|s| s.parse().ok()).unwrap_or(0);
+            let mut r = Rng::new(argseed);
+            let cfg = GenCfg::default();
+            for _ in 0..nargs {
+                let v = gen_value(&mut r, &cfg, 0);
+                println!("{}  -- {}", coq_value(&v), v.show().replace('\n', " / "));
+            }
+        }
         "probe" => {
             let argseed: u64 = std::env::args().nth(2).and_then(|s| s.parse().ok()).unwrap_or(0);
             let nargs: usize = std::env::args().nth(3).and_then(|s| s.parse().ok()).unwrap_or(0);
